@@ -268,6 +268,8 @@ class Func:
         return self._cfg
 
     def loc(self, node=None):
+        if node is not None and node.get('f') and node.get('l'):
+            return '%s:%d' % (node['f'], node['l'])       # a node of a helper spliced into this view (rules/inline.py)
         return '%s:%d' % (self.file, node['l'] if node is not None and node.get('l') else self.line)
 
     def __repr__(self):
@@ -507,10 +509,14 @@ class Facts:
             self._by_usr.setdefault(fn.usr, []).append(fn)
         self._callers = None
 
-    def fn(self, norm_name, sig=None, required=True, concrete=True):
+    def fn(self, norm_name, sig=None, required=True, concrete=True, raw=False):
         """Functions by normalised qualified name. concrete=True drops
-        uninstantiated template patterns when instantiations exist."""
+        uninstantiated template patterns when instantiations exist. Unless raw=True each function is returned as its
+        inlined view (rules/inline.py): helpers no rule knows by name are spliced in at their call sites."""
         fs = self._by_norm.get(norm_name, [])
+        if not raw:
+            import inline
+            fs = [inline.inlined_func(self, f) for f in fs]
         if sig is not None:
             fs = [f for f in fs if f.sig == sig or sig in f.sig]
         if concrete:
